@@ -29,10 +29,14 @@ type c02ChurnCase struct {
 	MC int `json:"mc"` // Config.MaxConns (>= 2)
 	T  int `json:"t"`  // Config.Timeout in ms: 0 or large
 	MB int `json:"mb"` // Config.MaxBytes
+	// J: 0 no auth; 1 the route is added with WithJwt, 2 with WithJwtTransition (new + previous secret): every
+	// request carries a valid token, under 2 signed with the previous secret for every third request (this unit
+	// is not built with -race: the token parser's counters are read non-atomically on the unchanged tree)
+	J int `json:"j,omitempty"`
 }
 
 func c02ChurnRun(t *testing.T, c c02ChurnCase) (v kit.Verdict) {
-	if c.N < 1 || c.N > 200000 || c.MC < 2 || c.MC > 8 || c.T < 0 || c.MB < 0 {
+	if c.N < 1 || c.N > 200000 || c.MC < 2 || c.MC > 8 || c.T < 0 || c.MB < 0 || c.J < 0 || c.J > 2 {
 		v.Excluded = true
 		return v
 	}
@@ -61,7 +65,13 @@ func c02ChurnRun(t *testing.T, c c02ChurnCase) (v kit.Verdict) {
 			w.WriteHeader(code)
 			w.Write([]byte("<" + c02Marker + id + ">"))
 		}
-		serve, err := c02BuildEngine(c02Case{T: c.T, MC: c.MC, MB: c.MB, R: []c02Route{{M: "POST", O: []c02Opt{{K: "prefix", S: "/churn"}}}}}, h)
+		opts := []c02Opt{{K: "prefix", S: "/churn"}}
+		if c.J > 0 {
+			opts = append(opts, c02Opt{K: []string{"jwt", "jwtt"}[c.J-1]})
+		}
+		tokens := []string{"Bearer " + c02JwtToken(c02JwtSecret), "Bearer " + c02JwtToken(c02JwtPrevSecret)}
+		nreq := 0
+		serve, err := c02BuildEngine(c02Case{T: c.T, MC: c.MC, MB: c.MB, R: []c02Route{{M: "POST", O: opts}}}, h)
 		if err != nil {
 			failf("building the server: %v", err)
 			return
@@ -71,6 +81,16 @@ func c02ChurnRun(t *testing.T, c c02ChurnCase) (v kit.Verdict) {
 			r := httptest.NewRequest("POST", "/churn/c02/r0", strings.NewReader("b"))
 			r.ContentLength = int64(cl)
 			r.Header.Set("X-Churn-Id", id)
+			if c.J > 0 {
+				mu.Lock()
+				nreq++
+				tok := tokens[0]
+				if c.J == 2 && nreq%3 == 0 {
+					tok = tokens[1]
+				}
+				mu.Unlock()
+				r.Header.Set("Authorization", tok)
+			}
 			r.Header.Set("X-Churn-Code", fmt.Sprint(code))
 			func() {
 				defer func() {
@@ -184,6 +204,9 @@ func c02ChurnRun(t *testing.T, c c02ChurnCase) (v kit.Verdict) {
 	if c.T > 0 {
 		cls["timeout-guard-in-chain"] = true
 	}
+	if c.J > 0 {
+		cls[[]string{"route-WithJwt", "route-WithJwtTransition"}[c.J-1]] = true
+	}
 	for k := range cls {
 		v.Classes = append(v.Classes, k)
 	}
@@ -207,6 +230,7 @@ func c02ChurnGen(rt *rapid.T) c02ChurnCase {
 		MC: rapid.IntRange(2, 4).Draw(rt, "mc"),
 		T:  rapid.SampledFrom([]int{0, 60000, 3600000}).Draw(rt, "t"),
 		MB: rapid.SampledFrom([]int{0, 16}).Draw(rt, "mb"),
+		J:  rapid.SampledFrom([]int{0, 1, 2, 2}).Draw(rt, "jwt"),
 	}
 }
 
